@@ -293,7 +293,7 @@ def runCase (c : Case) : String := Id.run do
     let lateticks := (slog.filter fun o => o.kind.startsWith "k" && (match o.due with | some d => d < o.time | none => false)).length
     let own := (slog.filter (·.own)).length
     let nt := ef > 0 && fired ≥ 2
-    return s!"ok {id} nt={if nt then 1 else 0} events={s.events} fired={fired} emptyfront={ef} ties={ties} restarts={restarts} elapsed={el} ticks={ticks} unfinished={unf} obs={slog.length} crowd={sum (·.crowd)} resetlater={sum (·.resetLater)} resetearlier={sum (·.resetEarlier)} dropreg={sum (·.dropReg)} stalewake={sum (·.staleWake)} staleinc={sum (·.staleInc)} wakeinactive={sum (·.wakeInactive)} lateticks={lateticks} owncompl={own} speclines={specLines}"
+    return s!"ok {id} nt={if nt then 1 else 0} events={s.events} fired={fired} emptyfront={ef} ties={ties} restarts={restarts} elapsed={el} ticks={ticks} unfinished={unf} obs={slog.length} crowd={sum (·.crowd)} resetlater={sum (·.resetLater)} resetearlier={sum (·.resetEarlier)} dropreg={sum (·.dropReg)} stalewake={sum (·.staleWake)} staleinc={sum (·.staleInc)} wakeinactive={sum (·.wakeInactive)} lateticks={lateticks} owncompl={own} speclines={specLines} twins={sum (·.twins)} twincancel={sum (·.twinCancel)}"
 
 def main (stdin : IO.FS.Stream) : IO Unit := do
   let cases ← readCases stdin
